@@ -145,6 +145,13 @@ let run (op : string) (f : string list) : string =
   match op, f with
   | "convert", f -> run_convert true false f
   | "convert_pinned", f -> run_convert false true f
+  | ("links" | "links_pinned"), [out; svcfile; text] ->
+      (match parse_text text with
+       | None -> "ERR\tUnit"
+       | Some u ->
+         (match M.plan_links (op = "links") (to_str out) u (to_str svcfile) with
+          | M.COk l -> ok (List.concat_map (fun (p, t) -> [of_str p; of_str t]) l)
+          | M.CPanic -> "PANIC" | M.CSkip -> "SKIP" | M.CErr (_, _) -> "ERR"))
   | "is_url", [s] -> ok [tf (M.is_url (to_str s))]
   | "cleaned", [p] -> ok [of_str (M.cleaned (to_str p))]
   | "absolute_from", [p; r] -> (match M.absolute_from (to_str p) (to_str r) with Some x -> ok [of_str x] | None -> "CWD")
